@@ -644,6 +644,7 @@ Definition exec_api (c : api) (w : world) : world :=
       | Some ins => put_inst i (mkInst (in_service ins) egs (in_task ins) (in_can_answer ins) (in_subs ins)) w
       | None => w
       end
+  | ApiSoon c' => call_soon (HApi c') w
   end.
 
 (* run one callback to completion *)
